@@ -790,7 +790,7 @@ func c16CallReturns(f func()) (blockedIn string) {
 				continue
 			}
 			found = true
-			if parkedState(g.State) && isVegetaG(g) {
+			if parkedG(g) && isVegetaG(g) {
 				parkedTwice++
 				if parkedTwice >= 2 {
 					c16LeakedCallers++
